@@ -120,6 +120,7 @@ _EXTRA = {
     "C17.percent_and_str_format": "; wave 3: + 10 template/argument pairs as a binary % expression and as the augmented assignment s %= args through the checker",
     "C18.layering": "; wave 3: + error-code options: 4 config files x 4 command-line -e/-d settings x 5 module paths x 2 codes (override, disable_all), extend_config cycles through 2 and 3 files",
     "C20.reference_denotation": "; wave 3: + 4 bodies whose `and` tests the same parameter twice, is_of_type against a union type (Literal['r', 'w']) with an Any argument under exclude_any True / False",
+    "C19.literal_operations": "; wave 3: + the names the mock module adds (count, called, call_count, reset_mock) on classes whose attributes are all known (int, float, bytes, an Enum class); S: the unary operator table",
     "C01.instrumented_execution": "; wave 3: + the 6 narrowing programs of C02.narrowing_programs",
 }
 for _bc in REG.bounded_checks:
